@@ -38,8 +38,18 @@ def has_quant(t):
             r = any(has_quant(c) for c in t.children())
         else:
             r = False
-        _hq[i] = r
-    return r
+        _hq[i] = (r, t)   # keep the term alive: z3 re-uses ids of collected terms
+        return r
+    return r[0]
+
+
+def loop_sig(s):
+    if isinstance(s, ast.For):
+        t = ast.unparse(s.target)
+        if t.startswith('(') and t.endswith(')'):
+            t = t[1:-1]
+        return f'for {t} in {ast.unparse(s.iter)}'
+    return f'while {ast.unparse(s.test)}'
 
 
 class FunctionEngine(CallsMixin, Engine):
@@ -123,6 +133,13 @@ class FunctionEngine(CallsMixin, Engine):
                 ok = isinstance(v.loc, CellLoc) and v.loc.n in st.alloc and not isinstance(st.heap[v.loc.n], tuple)
                 return V(BOOL, z3.BoolVal(bool(ok)))
             raise Unsupported('fresh() on non-container')
+        if f == 'allocated':
+            v = self.eval(a[0], st)
+            return V(BOOL, T.Sel(self.alloc_map(st), v.t))
+        if f == 'fresh_object':
+            v = self.eval(a[0], st)
+            pre = self.spec_pre
+            return V(BOOL, z3.And(z3.Not(T.Sel(self.alloc_map(pre), v.t)), T.Sel(self.alloc_map(st), v.t)))
         if f == 'same_object':
             x, y = self.eval(a[0], st), self.eval(a[1], st)
             if x.ty.is_container and y.ty.is_container:
@@ -543,13 +560,11 @@ class FunctionEngine(CallsMixin, Engine):
     # ------------------------------------------------------------------ loops
     def loop_contract(self, s):
         loops = self.contract.get('loops', {})
-        if isinstance(s, ast.For):
-            sig = f'for {self.src(s.target)} in {self.src(s.iter)}'
-        else:
-            sig = f'while {self.src(s.test)}'
+        sig = loop_sig(s)
         n = self.loop_ord.get(id(s), 0)
         for key in (f'{sig}#{n}', sig):
             if key in loops:
+                self.used_loops.add(key)
                 return sig, loops[key]
         return sig, None
 
